@@ -2,7 +2,7 @@ CONSTANT BSel = {1, 2, 3, 4, 5, 6, 7, 8, 9, 10}
 CONSTANT ChainSel = {"add-sub", "sub-add", "mul-div", "div-mul"}
 CONSTANT F12Fixed = TRUE
 CONSTANT B256CmpFixed = TRUE
-CONSTANT ClsSel = {"bin", "shift", "not", "widen", "narrow", "chain", "b256"}
+CONSTANT ClsSel = {"bin", "shift", "not", "widen", "narrow", "chain", "agg", "b256"}
 CONSTANT TySel = {"u8", "u16", "u32", "u64", "u256"}
 SPECIFICATION Spec
 INVARIANT Agreement
